@@ -36,19 +36,18 @@ Proof.
   induction fuel as [|f IH]; intros s o out s' W R Ho F H; cbn [step_retry] in H;
     destruct (step s o) as [o1 s1] eqn:E;
     pose proof (step_recv_ok _ _ _ _ W R (framing_is_recv _ Ho) E) as (W1 & SR & _ & Hcase);
-    destruct Hcase as [(-> & Hr & Ht)|(Hnt & Ht & Hcase)]; try lia.
-  - (* not a time-out *)
-    assert (H' : (o1, s1) = (out, s')).
-    { destruct o1 as [| | |[]]; try exact H; cbn in Hnt; discriminate. }
-    inversion H'; subst. split; [|auto]. destruct o; try discriminate; exact Hcase.
-  - (* Timeout: repeat *)
+    destruct Hcase as [(e & -> & Hr & Ht)|(Hnt & Ht & Hcase)].
+  - (* no retries left but interrupted: the network had no interruption left *)
+    unfold timeouts in F. rewrite Ht in F. cbn in F. lia.
+  - rewrite Hnt in H. inversion H; subst. split; [|auto]. destruct o; try discriminate; exact Hcase.
+  - (* interrupted: repeat *)
+    cbn [is_interrupt] in H. rewrite (intrs_head _ _ _ Ht) in H.
     destruct SR as (SR1 & SR2 & SR3 & SR4 & SR5).
-    apply IH in H; try assumption; try lia.
+    apply IH in H; try assumption; try lia;
+      [|unfold timeouts in *; rewrite Ht in F; cbn in F; lia].
     destruct H as (H1 & H2 & H3). rewrite SR1, Hr in H1. split; [exact H1|]. split; [exact H2|].
     eapply same_rest_trans; [|exact H3]. repeat split; assumption.
-  - assert (H' : (o1, s1) = (out, s')).
-    { destruct o1 as [| | |[]]; try exact H; cbn in Hnt; discriminate. }
-    inversion H'; subst. split; [|auto]. destruct o; try discriminate; exact Hcase.
+  - rewrite Hnt in H. inversion H; subst. split; [|auto]. destruct o; try discriminate; exact Hcase.
 Qed.
 
 Theorem run_retry_spec : forall ops s,
@@ -134,7 +133,7 @@ Proof.
   intros W R H. destruct (is_recv_op o) eqn:Hro.
   - pose proof (step_recv_ok _ _ _ _ W R Hro H) as (W' & (SR1 & SR2 & _) & _ & Hcase).
     split; [|split; [assumption|lia]].
-    destruct Hcase as [(-> & Hr & _)|(_ & _ & Hcase)].
+    destruct Hcase as [(e & -> & Hr & _)|(_ & _ & Hcase)].
     + destruct o; cbn; auto.
     + destruct o; try discriminate; cbn [spec_framing] in Hcase.
       * destruct (first_occ delim (lim_take (resolve (maxsize s) m) (remaining s))) as [k|] eqn:Ef;
@@ -190,7 +189,7 @@ Proof.
     destruct (match rbuf s with [] => _ | _ => _ end) as [[?|] ?]; [|inversion H; auto].
     destruct (rs_loop _ _ _ _ _ _ _) as [[? ? ?|? ?] ?]; inversion H; auto.
   + unfold recv_close, recv_size_lim in H.
-    destruct (match rbuf s with [] => _ | _ => _ end) as [[?|] ?]; [|inversion H; auto].
+    destruct (match rbuf s with [] => _ | _ => _ end) as [[?|e0] ?]; [|destruct e0; inversion H; auto].
     destruct (rs_loop _ _ _ _ _ _ _) as [[? ? ?|[] ?] ?]; inversion H; auto.
   + unfold recv in H. destruct (Nat.leb _ _); [inversion H; auto|].
     destruct (rbuf s); [|inversion H; auto].
@@ -235,12 +234,12 @@ Qed.
 (* ---- statements in the form used by Props/C12.v ------------------------------------------------ *)
 Lemma recv_prefix s k out s' :
   wf_net (nt s) = true -> 1 <= recvsize s -> recv s k = (out, s') ->
-  (out = OExn Timeout /\ remaining s' = remaining s) \/
+  (exists e, out = OExn e /\ is_intr_exn e = true /\ remaining s' = remaining s) \/
   (exists d, out = OBytes d /\ spec_recv_ok (remaining s) k d = true /\
              remaining s' = skipn (length d) (remaining s)).
 Proof.
-  intros W R H. destruct (recv_ok s k out s' W R H) as (_ & _ & _ & [(A & B & _)|(_ & _ & C)]);
-    [left; auto|right; exact C].
+  intros W R H. destruct (recv_ok s k out s' W R H) as (_ & _ & _ & [(e & A & B & C)|(_ & _ & C)]);
+    [left; exists e; repeat split; auto; exact (intrs_head _ _ _ C)|right; exact C].
 Qed.
 
 Lemma conservation_init mx rs n sc ops obs sf :
